@@ -227,6 +227,9 @@ def _c09_records(ctx, thorough):
     reps = 6 if thorough else 2
     chunks = [(cases[k:k + 400], ctx.seed * 7919 + k, reps) for k in range(0, len(cases), 400)]
     out = core.pool_map(d.grammar_records, chunks, chunksize=1)
+    small = [c for c in cases if len(c[1]) <= 2]
+    out += core.pool_map(d.cycling_records, [(small[k:k + 100], ctx.seed + k) for k in range(0, len(small), 100)],
+                         chunksize=1)
     if thorough:
         rng = random.Random(ctx.seed)
         c4 = [c for c in d.all_cases(4) if len(c[1]) == 4]
@@ -334,13 +337,34 @@ def run_update_family(ctx, n_quick, n_thorough):
     from . import drv_update as d
     thorough = ctx.tier == 'thorough'
     n = n_thorough if thorough else n_quick
-    recs = []
+    rng = random.Random(ctx.seed)
+    # design level: the update algorithm (Update.tla) against UpdateRef for every prior Manifest state of
+    # the bounded family; the historical switches must exhibit their defects
+    ctx.mc('Update', 'MC_Update.cfg', timeout=3000)
+    ctx.mc('Update', 'MC_Update_F14.cfg', expect_violation='C03_ExactCover', coverage=False)
+    if thorough:
+        ctx.mc('Update', 'MC_Update_F14fix.cfg', timeout=3000)
+        ctx.mc('Update', 'MC_Update_F9.cfg', expect_violation='C03_ExactCover_ModuloF14', coverage=False)
+        ctx.mc('Update', 'MC_Update_F8.cfg', expect_violation='C18_NoInternal', coverage=False)
+    # spec -> code: exported behaviours replayed into the real loader
+    behs = _export(ctx, 'Update', 'MC_Update.cfg', [], sample=(6000 if thorough else 700), rng=rng)
+    out = core.pool_map(d.replay_update, list(enumerate(behs)))
+    recs = [r for o in out for r in o]
+    nd = 0
+    for r in recs:
+        for x in r.pop('drift', []):
+            nd += 1
+            ctx.drift[x] = ctx.drift.get(x, 0) + 1
+            if nd <= 5:
+                print('DRIFT: %s %s' % (ctx.pid, x))
+    ctx.extra['replayed_behaviours'] = len(behs)
     for prof, share in (('default', 0.7), ('ebuild', 0.15), ('old-ebuild', 0.15)):
         k = int(n * share)
         out = core.pool_map(d.one_update, [(ctx.seed, i, {'profile': prof}) for i in range(k)])
         recs += [r for o in out for r in o]
     g = max(n // 4, 40)
-    out = core.pool_map(d.canon_group, [(ctx.seed, i, {}) for i in range(g)])
+    out = core.pool_map(d.lookalike_update, [(ctx.seed, i, {}) for i in range(g)])
+    out += core.pool_map(d.canon_group, [(ctx.seed, i, {}) for i in range(g)])
     out += core.pool_map(d.transparent_group, [(ctx.seed, i, {}) for i in range(g)])
     recs += [r for o in out for r in o]
     metas = [r.pop('meta') for r in recs]
@@ -433,7 +457,7 @@ def c05(ctx):
             core_words = ['GOODSIG', 'VALIDSIG', rng.choice(d.VOCAB[13:])]
             sq = core_words + [rng.choice(d.VOCAB) for _ in range(n - 3)]
             rng.shuffle(sq)
-            seqs.append((sq, rng.choice([0, 0, 0, 1, 2])))
+            seqs.append((sq, rng.choice([0, 0, 0, 1, 2, 255, -15, -9, -11])))
     chunks = [(seqs[k:k + 1500], ctx.seed * 31 + k) for k in range(0, len(seqs), 1500)]
     recs = [r for o in core.pool_map(d.scripted_records, chunks, chunksize=1) for r in o]
     ctx.extra['scripted_sequences'] = len(recs)
